@@ -114,3 +114,16 @@ func Harness_C14_unshared_control() {
 	}
 	verifReach("control-done")
 }
+
+// two transports between the allocation and the accessed value (thorough tier): the object itself is handed to a
+// goroutine, the access goes through the end of the chain, or the other way round
+func Harness_C14_leak_through_transport_pairs_T() {
+	n := dataflow.VerifNumTransports
+	t1 := verifPick("t1", 0, n-1)
+	t2 := verifPick("t2", 0, n-1)
+	leakAt := verifPick("leakAt", 0, 1) * 2
+	w := dataflow.VerifBuildShareProgram([]int{t1, t2}, []int{1, 0}, 0, leakAt, 0, 2-leakAt)
+	if e, ok := c14Analyze(w); ok {
+		c14CheckRacy(e, w, "", false)
+	}
+}
